@@ -165,3 +165,11 @@ Proof.
   intro H. apply parse_items_wf in H as [A B]. split; [|exact A].
   destruct rs; [discriminate B|discriminate].
 Qed.
+
+Lemma whole_content content ctype boundary (range : option bytes) :
+  (match range with None => True | Some h => parse_range_header h = None end) ->
+  serve content ctype boundary false range = mkR 200 None (to_dec (lenN content)) (Some ctype) content /\
+  serve content ctype boundary true range = mkR 200 None (to_dec (lenN content)) (Some ctype) [].
+Proof.
+  intro H. unfold serve, render. destruct range as [h|]; [rewrite H|]; split; reflexivity.
+Qed.
